@@ -12,6 +12,14 @@ CHECKS = {
    text="Bounded model checking of the main loop's real per-event dispatch (IoLoop::handle_steady_event with the channel-0, allocation, blocked-listener and per-channel handlers and the close arms of the dispatcher, from MIR): every ordered batch of up to N events containing one server close (connection or channel) plus wake-ups of channel 0, the allocation source, the blocked-listener source, the closed channel and another channel, with and without requests actually queued, from a two-channel Steady state: no event may panic or fail the I/O thread, and the effects must equal the serial order of the events (requests before the close take effect in order, nothing is written after a connection close, allocation answered, final state is the close).",
    note="A poll batch is modelled as a fixed event list (mio semantics); real thread timing decides which batches occur, not what each batch does; the decoder is a stub delivering the close frame; client endpoints alive. Panics are replayed natively by driving the real handle_steady_event with mio::Event values.",
    ref="DESIGN.md §4 C20"),
+ 'C01': dict(
+   text="Inductive bounded model checking from MIR of the outbound path with the output buffer as a window of a ghost byte stream: (a) the write loop for 1-3 iterations from any non-empty buffer under every short-write / would-block / error pattern (each slice offered is exactly the unaccepted remainder, would-block drops exactly the accepted prefix, a flush clears, an error drops nothing and is IoErrorWritingSocket); (b) serialize()'s grow-and-retry loop under the generator contract (attempts at the old end, strict growth bounded by pos+L, exactly L bytes appended, unreachable arm unreachable); (c) each handle operation enqueues exactly one message with exactly the frame just serialised and the I/O thread appends buffers whole (dropped whole once sealed); (d) one iteration of the real poll loop from any loop state: write interest is re-armed whenever unsent data remains, read interest never dropped; plus the protocol header literal.",
+   note="Thread interleavings of several handles are represented by arbitrary arrival order of whole messages (FIFO of the in-memory channel trusted); frame bytes are amq-protocol's; a successful write accepts >= 1 byte. Counterexamples are confirmed by a native write-path differential (1555 scripted transports) / a native poll-loop scenario.",
+   ref="DESIGN.md §4 C01"),
+ 'C18': dict(
+   text="Induction over the real poll loop (IoLoop::run_io_loop from MIR with mio's Poll as a registration table and an abstract event handler): one iteration from every loop state satisfying the invariant, for every high/low water mark: at the next poll non-zero channels are registered iff not throttled, above the high-water mark none is, at or below the low-water mark all are (own tokens), including a channel opened during the iteration; allocate_channel registers a new channel and de-registers it again iff throttled; every slot's handle-to-loop channel is created with the configured bound.",
+   note="That a re-registered source with pending messages wakes the loop, and that senders block on the bounded channel, are mio_extras/std behaviour; exactly-once transmission is C01. Counterexamples are confirmed on the real loop natively (scripted throttling scenario with real mio Poll, a user-space readiness stream and a channel opened while throttled), which also runs as validation in the thorough tier.",
+   ref="DESIGN.md §4 C18"),
  'C02': dict(
    text="Bounded symbolic execution of the real publish path (Channel::basic_publish, ChannelHandle::send_content, IoLoopHandle send_content_header/body, OutputBuffer push + serialize, from MIR) with a body of symbolic 64-bit length, symbolic payload limit (frame_max-8 >= 4088 or unlimited), symbolic flags/strings: the messages handed to the I/O thread must be exactly Basic.Publish(ticket 0, exchange, routing key, mandatory, immediate as given), one header (class 60, body_size = len, the given properties) and body frames contiguous from offset 0, full except the last, never empty, never above the limit, summing to len, each alone in its message and on that channel; a second publish appends its own group after the first.",
    note="Chunk loop unrolled k times (len <= k x limit; exact multiples inside); byte encodings are amq-protocol's (frames are tracked as identities with payload ranges); counterexamples replayed natively by observation equality on a real Channel.",
